@@ -158,6 +158,7 @@ class C10(MonitorCheck):
                    'judged']
     PROBES = ('nonempty_unifiers', 'empty_results', 'supertype_mode', 'projection_pattern',
               'nested_related_constructor', 'bound_mentions_bounded_variable',
+              'sibling_bounded_variable',
               'bounded_variable', 'postrun_unifications')
     tiers = {'quick': {'runs': 260, 'wall_s': 70, 'run_timeout_s': 200},
              'thorough': {'runs': 4000, 'wall_s': 1100, 'run_timeout_s': 900}}
@@ -282,6 +283,32 @@ class C10(MonitorCheck):
             npost += nb
             if nb:
                 probes['bound_mentions_bounded_variable'] = nb
+            # pattern variables bounded by a SIBLING variable of the same pattern, in both
+            # orders: G<S <: B, B, g..> and G<B, S <: B, g..> against G<x, y, g..> with x <: y
+            # and with x, y unrelated (the generator declares such parameters itself; the
+            # targets are well-formed because G's own first two parameters are unbounded)
+            ns = 0
+            for d in list(decls.values())[:8]:
+                tps = d.type_parameters
+                if len(tps) < 2 or tps[0].bound is not None or tps[1].bound is not None:
+                    continue
+                try:
+                    rest = [ground[(i + 1) % 3] for i in range(len(tps) - 2)]
+                    bv = tp.TypeParameter('B_probe')
+                    sv = tp.TypeParameter('S_probe', bound=bv)
+                    for pargs in ([sv, bv], [bv, sv]):
+                        pattern = d.get_type().new(pargs + rest)
+                        for (x, y) in ((badt, good), (good, num), (num, good)):
+                            targs = [x, y] if pargs[0] is sv else [y, x]
+                            target = d.get_type().new(targs + rest)
+                            for same in (False, True):
+                                tu.unify_types(target, pattern, f, same_type=same)
+                                ns += 1
+                except Exception:   # noqa
+                    pass
+            npost += ns
+            if ns:
+                probes['sibling_bounded_variable'] = ns
             npost += nn
             if nn:
                 probes['nested_related_constructor'] = nn
